@@ -74,3 +74,20 @@ func (w *VerifWorld) JobState(fqid string, fork int, job string, chunk int) stri
 	s, _ := m.getState()
 	return string(s)
 }
+
+// ResetNode runs Node.reset on the node: with full set, as under
+// MRO_FULLSTAGERESET (the node's directory and its journal entries are
+// removed), otherwise chunk-granular (Fork.resetPartial on every fork).
+func (w *VerifWorld) ResetNode(fqid string, full bool) (err error) {
+	defer func() {
+		if r := recover(); r != nil {
+			err = fmt.Errorf("panic: %v", r)
+		}
+	}()
+	n := w.top.allNodes[fqid]
+	if n == nil {
+		return fmt.Errorf("no node %s", fqid)
+	}
+	w.top.rt.Config = &RuntimeOptions{FullStageReset: full}
+	return n.reset()
+}
